@@ -72,6 +72,13 @@ def parseStmt : Sexp → Option Stmt
     let e ← parseExpr e; pure (.expr e)
   | _ => none
 
+def parseTop : Sexp → Option Top
+  | .list [.atom "for", .str i, lo, hi, .list (.atom "body" :: body)] => do
+    let lo ← parseExpr lo; let hi ← parseExpr hi
+    let body ← body.mapM parseStmt
+    pure (.forRange (String.ofList i) lo hi body)
+  | s => (parseStmt s).map .stmt
+
 def parseInstr : Sexp → Option Instr
   | .list [.atom "pushNull"] => some .pushNull
   | .list [.atom "popTop"] => some .popTop
@@ -132,10 +139,17 @@ def exitS : Exit → String
 def outcomeS (o : Outcome) : String :=
   "(" ++ exitS o.exit ++ String.join (o.out.map (fun l => " " ++ Sexp.quote l)) ++ ")"
 
+def resv (x : String) : Bool := x = "Nat" || x = "Int" || x = "Str" || x = "Bool" || x = "print" || x = "RightOpenRange"
+
 def noShadowB : List Stmt → Bool
   | [] => true
-  | .defv x _ :: ss => !(x = "Nat" || x = "Int" || x = "Str" || x = "Bool" || x = "print") && noShadowB ss
+  | .defv x _ :: ss => !resv x && noShadowB ss
   | _ :: ss => noShadowB ss
+
+def noShadowT : List Top → Bool
+  | [] => true
+  | .stmt s :: ts => noShadowB [s] && noShadowT ts
+  | .forRange i _ _ body :: ts => !resv i && noShadowB body && noShadowT ts
 
 def handle (line : String) : String :=
   match splitTabs line with
@@ -144,16 +158,16 @@ def handle (line : String) : String :=
     else
       match Sexp.parseAll impl.toList with
       | some [.list (.atom "hir" :: stmts), .list (.atom "code" :: instrs), ss] =>
-        match stmts.mapM parseStmt, instrs.mapM parseInstr with
+        match stmts.mapM parseTop, instrs.mapM parseInstr with
         | some p, some realCode =>
-          if !noShadowB p then id ++ "\tout-of-model(shadow)\t-\t-"
+          if !noShadowT p then id ++ "\tout-of-model(shadow)\t-\t-"
           else
             let hirText := (Sexp.list (.atom "hir" :: stmts)).toString
-            let modelCode := match compile p with
+            let modelCode := match compileL p with
               | some c => codeS c
               | none => "crash(fill_jump)"
-            let (ow, clean) := runW p
-            let py := runPy p
+            let (ow, clean) := runLW p
+            let py := runLPy p
             let vm := vmRun realCode
             let verdict :=
               if vm.exit = .outOfFuel || vm.exit = .stuck then "viol:machine-" ++ exitS vm.exit
